@@ -26,6 +26,8 @@ pub enum Out {
     Value(u64),
     /// Received bytes and the sender address the kernel reported.
     BytesFrom(Vec<u8>, String),
+    /// A socket address.
+    Addr(String),
     Err { raw: Option<i32>, kind: io::ErrorKind },
 }
 
@@ -99,6 +101,25 @@ pub enum OpKind {
     /// `process::wait(sq, WaitOn::Process(pid)).flags(EXITED)`: siginfo
     /// out-parameter inside the operation.
     Wait { pid: u16 },
+    /// `AsyncFd::recv_from_vectored::<[Vec<u8>; 2], SocketAddr>`: msghdr,
+    /// iovec array, two buffers and address storage, all kernel-written.
+    RecvFromVectored { a: u16, b: u16 },
+    /// `AsyncFd::recv_vectored([Vec<u8>; 2])`: msghdr without a name.
+    RecvVectored { a: u16, b: u16 },
+    /// `AsyncFd::send_to_vectored([Vec<u8>; 2], SocketAddr)`: msghdr, iovec
+    /// array, two source buffers and the destination address.
+    SendToVectored { a: u16, b: u16, v6: bool },
+    /// `AsyncFd::send_vectored([Vec<u8>; 2])`.
+    SendVectored { a: u16, b: u16 },
+    /// `AsyncFd::local_addr` / `peer_addr`: address storage and its length,
+    /// both written by the kernel (socket command, K16).
+    SocketName { peer: bool },
+    /// `AsyncFd::set_socket_option::<RecvBuf>(v)`: option value read by the
+    /// kernel.
+    SetSockOpt,
+    /// `Signals::receive()`: a signalfd_siginfo out-parameter inside the
+    /// operation (a real signalfd descriptor; its reads are simulated).
+    ReceiveSignal,
 }
 
 /// The path operation `id` names: `len` extra characters after a fixed stem.
@@ -172,13 +193,20 @@ impl OpKind {
             OpKind::Rename { .. } => "rename",
             OpKind::Bind { .. } => "bind",
             OpKind::Wait { .. } => "wait",
+            OpKind::RecvFromVectored { .. } => "recv_from_vectored",
+            OpKind::RecvVectored { .. } => "recv_vectored",
+            OpKind::SendToVectored { .. } => "send_to_vectored",
+            OpKind::SendVectored { .. } => "send_vectored",
+            OpKind::SocketName { .. } => "socket_name",
+            OpKind::SetSockOpt => "set_socket_option",
+            OpKind::ReceiveSignal => "receive_signal",
         }
     }
     pub fn has_memory(&self) -> bool {
         !matches!(self, OpKind::Truncate)
     }
     pub fn valued(&self) -> bool {
-        !matches!(self, OpKind::Truncate | OpKind::Connect { .. } | OpKind::CreateDir { .. } | OpKind::Remove { .. } | OpKind::Rename { .. } | OpKind::Bind { .. })
+        !matches!(self, OpKind::Truncate | OpKind::Connect { .. } | OpKind::CreateDir { .. } | OpKind::Remove { .. } | OpKind::Rename { .. } | OpKind::Bind { .. } | OpKind::SetSockOpt)
     }
 }
 
@@ -254,6 +282,7 @@ pub enum Expect {
     Bytes(Vec<u8>),
     Value(u64),
     BytesFrom(Vec<u8>, String),
+    Addr(String),
     Errno(i32),
 }
 
@@ -507,6 +536,69 @@ impl OpState {
                     Err(e) => Out::from_err(&e),
                 })
             }
+            OpKind::RecvFromVectored { a, b } | OpKind::RecvVectored { a, b } => {
+                let (va, vb): (Vec<u8>, Vec<u8>) = {
+                    let _s = track::scope(track::TAG_RESOURCE);
+                    (Vec::with_capacity((*a as usize).max(1)), Vec::with_capacity((*b as usize).max(1)))
+                };
+                st.buf_addr = va.as_ptr().addr();
+                let _s = track::scope(track::TAG_A10);
+                if matches!(kind, OpKind::RecvFromVectored { .. }) {
+                    boxed(afd.recv_from_vectored::<[Vec<u8>; 2], std::net::SocketAddr, 2>([va, vb]), |r| match r {
+                        Ok(([x, y], addr, _)) => Out::BytesFrom([x, y].concat(), addr.to_string()),
+                        Err(e) => Out::from_err(&e),
+                    })
+                } else {
+                    boxed(afd.recv_vectored([va, vb]), |r| match r {
+                        Ok(([x, y], _)) => Out::Bytes([x, y].concat()),
+                        Err(e) => Out::from_err(&e),
+                    })
+                }
+            }
+            OpKind::SendToVectored { a, b, .. } | OpKind::SendVectored { a, b } => {
+                let (va, vb): (Vec<u8>, Vec<u8>) = {
+                    let _s = track::scope(track::TAG_RESOURCE);
+                    ((0..*a as usize).map(|j| pattern_byte(id, j)).collect(), (0..*b as usize).map(|j| pattern_byte(id + 5, j)).collect())
+                };
+                st.source = [va.clone(), vb.clone()].concat();
+                st.buf_addr = va.as_ptr().addr();
+                let _s = track::scope(track::TAG_A10);
+                if let OpKind::SendToVectored { v6, .. } = kind {
+                    boxed(afd.send_to_vectored([va, vb], sock_addr(id, *v6)), |r| match r {
+                        Ok(n) => Out::Count(n),
+                        Err(e) => Out::from_err(&e),
+                    })
+                } else {
+                    boxed(afd.send_vectored([va, vb]), |r| match r {
+                        Ok(n) => Out::Count(n),
+                        Err(e) => Out::from_err(&e),
+                    })
+                }
+            }
+            OpKind::SocketName { peer } => {
+                let _s = track::scope(track::TAG_A10);
+                let fut = if *peer { afd.peer_addr::<std::net::SocketAddr>() } else { afd.local_addr::<std::net::SocketAddr>() };
+                boxed(fut, |r| match r {
+                    Ok(a) => Out::Addr(a.to_string()),
+                    Err(e) => Out::from_err(&e),
+                })
+            }
+            OpKind::SetSockOpt => {
+                let _s = track::scope(track::TAG_A10);
+                boxed(afd.set_socket_option::<a10::net::option::RecvBuf>(70_000 + id as u32), |r| match r {
+                    Ok(()) => Out::Unit,
+                    Err(e) => Out::from_err(&e),
+                })
+            }
+            OpKind::ReceiveSignal => {
+                let signals = world.signals();
+                st.fd_raw = -2; // Any descriptor: the signalfd's number is not public.
+                let _s = track::scope(track::TAG_A10);
+                boxed(signals.receive(), |r| match r {
+                    Ok(info) => Out::Value(((if info.signal() == a10::process::Signal::USER2 { libc::SIGUSR2 as u64 } else { 0 }) << 32) | info.pid() as u64),
+                    Err(e) => Out::from_err(&e),
+                })
+            }
             OpKind::Wait { pid } => {
                 st.fd_raw = 100_000 + *pid as i32;
                 let sq = world.sq();
@@ -541,9 +633,13 @@ impl OpState {
                     want.addr = sqe.addr;
                 }
             }
-            OpKind::WriteVectored { .. } | OpKind::ReadVectored { .. } | OpKind::SendTo { .. } | OpKind::RecvFrom { .. } | OpKind::SockOpt | OpKind::Statx | OpKind::Connect { .. } | OpKind::CreateDir { .. } | OpKind::Remove { .. } | OpKind::Rename { .. } | OpKind::Bind { .. } | OpKind::Wait { .. } => {
+            OpKind::WriteVectored { .. } | OpKind::ReadVectored { .. } | OpKind::SendTo { .. } | OpKind::RecvFrom { .. } | OpKind::SockOpt | OpKind::Statx | OpKind::Connect { .. } | OpKind::CreateDir { .. } | OpKind::Remove { .. } | OpKind::Rename { .. } | OpKind::Bind { .. } | OpKind::Wait { .. } | OpKind::RecvFromVectored { .. } | OpKind::RecvVectored { .. } | OpKind::SendToVectored { .. } | OpKind::SendVectored { .. } | OpKind::SocketName { .. } | OpKind::SetSockOpt | OpKind::ReceiveSignal => {
                 // Opcode and descriptor only: the full encodings are C13's.
                 let opcode = match &self.kind {
+                    OpKind::RecvFromVectored { .. } | OpKind::RecvVectored { .. } => abi::OP_RECVMSG,
+                    OpKind::SendToVectored { .. } | OpKind::SendVectored { .. } => abi::OP_SENDMSG,
+                    OpKind::SocketName { .. } | OpKind::SetSockOpt => abi::OP_URING_CMD,
+                    OpKind::ReceiveSignal => abi::OP_READ,
                     OpKind::CreateDir { .. } => abi::OP_MKDIRAT,
                     OpKind::Remove { .. } => abi::OP_UNLINKAT,
                     OpKind::Rename { .. } => abi::OP_RENAMEAT,
@@ -557,8 +653,21 @@ impl OpState {
                     OpKind::Statx => abi::OP_STATX,
                     _ => abi::OP_CONNECT,
                 };
-                if sqe.opcode != opcode || sqe.fd != self.fd_raw {
+                if sqe.opcode != opcode || (sqe.fd != self.fd_raw && self.fd_raw != -2) {
                     return Err(format!("submission of {} has opcode {} on descriptor {}, expected opcode {opcode} on {}", self.kind.name(), sqe.opcode, sqe.fd, self.fd_raw));
+                }
+                let cmd = sqe.off as u32;
+                match &self.kind {
+                    OpKind::SocketName { peer } if cmd != abi::SOCKET_URING_OP_GETSOCKNAME || (sqe.file_index != 0) != *peer => {
+                        return Err(format!("submission of socket_name (peer {peer}) carries command {cmd} with peer flag {}", sqe.file_index));
+                    }
+                    OpKind::SetSockOpt if cmd != abi::SOCKET_URING_OP_SETSOCKOPT => {
+                        return Err(format!("submission of set_socket_option carries command {cmd}"));
+                    }
+                    OpKind::ReceiveSignal if sqe.len as usize != size_of::<libc::signalfd_siginfo>() => {
+                        return Err(format!("submission of receive_signal reads {} bytes, a signalfd_siginfo has {}", sqe.len, size_of::<libc::signalfd_siginfo>()));
+                    }
+                    _ => {}
                 }
                 return Ok(());
             }
@@ -648,7 +757,17 @@ impl OpState {
                 self.expect = Some(Expect::Count(n));
                 Ok((n as i32, 0))
             }
-            OpKind::WriteVectored { .. } => {
+            OpKind::WriteVectored { .. } | OpKind::SendVectored { .. } | OpKind::SendToVectored { .. } => {
+                if let OpKind::SendToVectored { v6, .. } = &self.kind {
+                    match req.regions.iter().find(|r| r.what == "msg-name") {
+                        Some(region) => match regions::read_region(region, 0, region.len) {
+                            Some(raw) if raw_matches(&raw, self.id, *v6) => {}
+                            Some(raw) => return Err(format!("C01:address-changed: the destination address the kernel reads is {raw:?}, not the caller's")),
+                            None => return Err("C01:region-moved: address storage no longer where the msghdr said".into()),
+                        },
+                        None => return Err("C01:region-not-owned: the message header designates no readable destination address".into()),
+                    }
+                }
                 let mut seen = Vec::new();
                 for region in req.regions.iter().filter(|r| r.what == "iovec-target") {
                     match regions::read_region(region, 0, region.len) {
@@ -663,7 +782,7 @@ impl OpState {
                 self.expect = Some(Expect::Count(n));
                 Ok((n as i32, 0))
             }
-            OpKind::ReadVectored { .. } => {
+            OpKind::ReadVectored { .. } | OpKind::RecvVectored { .. } | OpKind::RecvFromVectored { .. } => {
                 let targets: Vec<&regions::Region> = req.regions.iter().filter(|r| r.what == "iovec-target").collect();
                 let total: usize = targets.iter().map(|r| r.len).sum();
                 let n = scale(total);
@@ -676,8 +795,68 @@ impl OpState {
                     }
                     off += take;
                 }
+                if matches!(self.kind, OpKind::RecvVectored { .. } | OpKind::RecvFromVectored { .. }) && !req.regions.iter().any(|r| r.what == "msghdr") {
+                    return Err("C01:region-not-owned: recvmsg request without a valid msghdr".into());
+                }
+                if matches!(self.kind, OpKind::RecvFromVectored { .. }) {
+                    let from = sock_addr(self.id + 1000, false);
+                    let raw = raw_v4(&from);
+                    let (Some(name), Some(hdr)) = (req.regions.iter().find(|r| r.what == "msg-name"), req.regions.iter().find(|r| r.what == "msghdr")) else {
+                        return Err("C01:region-not-owned: recvmsg request without valid msghdr/address storage".into());
+                    };
+                    if name.len < raw.len() || !regions::write_region(name, 0, &raw) {
+                        return Err("C01:region-moved: address storage no longer where the msghdr said".into());
+                    }
+                    let namelen_off = std::mem::offset_of!(libc::msghdr, msg_namelen);
+                    if !regions::write_region(hdr, namelen_off, &(raw.len() as u32).to_ne_bytes()) {
+                        return Err("C01:region-moved: msghdr no longer where the submission said".into());
+                    }
+                    self.expect = Some(Expect::BytesFrom(data, from.to_string()));
+                    return Ok((n as i32, 0));
+                }
                 self.expect = Some(Expect::Bytes(data));
                 Ok((n as i32, 0))
+            }
+            OpKind::SocketName { peer } => {
+                let (Some(lenr), Some(addr)) = (req.regions.iter().find(|r| r.what == "name-addrlen"), req.regions.iter().find(|r| r.what == "name-address")) else {
+                    return Err("C01:region-not-owned: socket name request without valid address storage / length".into());
+                };
+                let name = sock_addr(self.id + if *peer { 3000 } else { 2000 } + (*frac as usize % 200), false);
+                let raw = raw_v4(&name);
+                if addr.len < raw.len() || !regions::write_region(addr, 0, &raw) {
+                    return Err("C01:region-moved: address storage no longer where the submission said".into());
+                }
+                if !regions::write_region(lenr, 0, &(raw.len() as u32).to_ne_bytes()) {
+                    return Err("C01:region-moved: address length no longer where the submission said".into());
+                }
+                self.expect = Some(Expect::Addr(name.to_string()));
+                Ok((0, 0))
+            }
+            OpKind::SetSockOpt => {
+                match req.regions.iter().find(|r| r.what == "optval") {
+                    Some(region) => match regions::read_region(region, 0, region.len.min(4)) {
+                        Some(raw) if raw.len() == 4 && u32::from_ne_bytes([raw[0], raw[1], raw[2], raw[3]]) == 70_000 + self.id as u32 => {}
+                        Some(raw) => return Err(format!("C01:option-changed: the option value the kernel reads is {raw:?}, not the caller's {}", 70_000 + self.id as u32)),
+                        None => return Err("C01:region-moved: option value no longer where the submission said".into()),
+                    },
+                    None => return Err("C01:region-not-owned: setsockopt request without a readable option value".into()),
+                }
+                self.expect = Some(Expect::Unit);
+                Ok((0, 0))
+            }
+            OpKind::ReceiveSignal => {
+                let Some(region) = req.regions.iter().find(|r| r.what == "buffer") else {
+                    return Err("C01:region-not-owned: signalfd read without a valid destination".into());
+                };
+                let mut info: libc::signalfd_siginfo = unsafe { std::mem::zeroed() };
+                info.ssi_signo = libc::SIGUSR2 as u32;
+                info.ssi_pid = 200_000 + (*frac as u32) + self.id as u32 * 65_536;
+                let raw = unsafe { std::slice::from_raw_parts((&raw const info).cast::<u8>(), size_of::<libc::signalfd_siginfo>()) };
+                if region.len < raw.len() || !regions::write_region(region, 0, raw) {
+                    return Err("C01:region-moved: signal information buffer no longer where the submission said".into());
+                }
+                self.expect = Some(Expect::Value(((libc::SIGUSR2 as u64) << 32) | info.ssi_pid as u64));
+                Ok((raw.len() as i32, 0))
             }
             OpKind::SendTo { v6, .. } => {
                 if let Some(region) = req.regions.iter().find(|r| r.what == "buffer") {
@@ -831,7 +1010,7 @@ impl OpState {
                 let _ = regions::write_region(region, 0, &junk);
             }
         }
-        if matches!(self.kind, OpKind::ReadVectored { .. } | OpKind::RecvFrom { .. }) {
+        if matches!(self.kind, OpKind::ReadVectored { .. } | OpKind::RecvFrom { .. } | OpKind::RecvVectored { .. } | OpKind::RecvFromVectored { .. }) {
             for region in req.regions.iter().filter(|r| r.what == "iovec-target") {
                 let junk = vec![0xEEu8; region.len.min(64)];
                 let _ = regions::write_region(region, 0, &junk);
@@ -850,6 +1029,7 @@ impl OpState {
             (Expect::Bytes(b), Out::Bytes(c)) => b == c,
             (Expect::Value(a), Out::Value(b)) => a == b,
             (Expect::BytesFrom(b, a), Out::BytesFrom(c, d)) => b == c && a == d,
+            (Expect::Addr(a), Out::Addr(b)) => a == b,
             (Expect::Errno(e), Out::Err { raw, .. }) => *raw == Some(*e),
             _ => false,
         };
